@@ -1,12 +1,30 @@
-From Coq Require Import ZArith List Bool Lia Arith.
+(* N-dimensional marginal differencing (ccubes.py:154-226 `_compute_common_cells_from_marginal_diffs`),
+   generic in the value type: any commutative group (V, vadd, vsub, vzero).
+   Instances at the end: Z (counts) and Qc (exact rationals: weights, sums).
+
+   A region is a function from patterns to values; a pattern gives, for every axis, a category
+   (Some k) or the margin (None).  [S p] is the specification: the sum of [mu r] over the rows
+   matching p.  [Inv a R] says that R already holds S p at every pattern without a common category
+   on the axes >= a, and zero where one of those axes is at its common category (the cells the walk
+   never visits).  [diff_axis a] is one iteration of the loop - common cell := margin - sum over
+   ALL categories 0..ext-1 of the axis (including the still-zero common one, exactly like
+   `region[uncommon_slice].sum(axis)`) - and [diff_all n] the whole loop. *)
+From Coq Require Import ZArith List Bool Lia Arith QArith Qcanon.
 Import ListNotations.
-Open Scope Z_scope.
 
 Section Diff.
+Variable V : Type.
+Variable vadd vsub : V -> V -> V.
+Variable vzero : V.
+Hypothesis vadd_comm : forall x y, vadd x y = vadd y x.
+Hypothesis vadd_assoc : forall x y z, vadd x (vadd y z) = vadd (vadd x y) z.
+Hypothesis vadd_0_l : forall x, vadd vzero x = x.
+Hypothesis vadd_sub : forall x y, vsub (vadd x y) y = x.      (* (x + y) - y = x *)
+
 Variable Row : Type.
 Variable rows : list Row.
 Variable cat : nat -> Row -> nat.     (* category of a row on dimension d *)
-Variable mu : Row -> Z.               (* what is being summed *)
+Variable mu : Row -> V.               (* what is being summed *)
 Variable n : nat.                     (* number of dims *)
 Variable ext : nat -> nat.            (* extent of dim d *)
 Variable com : nat -> nat.            (* common category of dim d *)
@@ -23,16 +41,16 @@ Definition matchd (p : pat) (r : Row) (d : nat) : bool :=
 
 Definition matches (p : pat) (r : Row) : bool := forallb (matchd p r) (seq 0 n).
 
-Fixpoint sumZ (l : list Z) : Z := match l with [] => 0 | x :: l => x + sumZ l end.
+Fixpoint vsum (l : list V) : V := match l with [] => vzero | x :: l => vadd x (vsum l) end.
 
-Definition S (p : pat) : Z := sumZ (map mu (filter (matches p) rows)).
+Definition S (p : pat) : V := vsum (map mu (filter (matches p) rows)).
 
-Definition reg := pat -> Z.
+Definition reg := pat -> V.
 
 Definition diff_axis (a : nat) (R : reg) : reg :=
   fun p => match p a with
            | Some k => if Nat.eqb k (com a)
-                       then R (upd p a None) - sumZ (map (fun k => R (upd p a (Some k))) (seq 0 (ext a)))
+                       then vsub (R (upd p a None)) (vsum (map (fun k => R (upd p a (Some k))) (seq 0 (ext a))))
                        else R p
            | None => R p
            end.
@@ -44,11 +62,55 @@ Definition has_common_from (a : nat) (p : pat) : Prop :=
   exists d, (a <= d < n)%nat /\ p d = Some (com d).
 
 Definition Inv (a : nat) (R : reg) : Prop :=
-  forall p, (has_common_from a p -> R p = 0) /\ (~ has_common_from a p -> R p = S p).
+  forall p, (has_common_from a p -> R p = vzero) /\ (~ has_common_from a p -> R p = S p).
 
-Lemma sumZ_app l1 l2 : sumZ (l1 ++ l2) = sumZ l1 + sumZ l2.
-Proof. induction l1 as [|x l1 IH]; cbn [app sumZ]; lia. Qed.
+(* ---- group algebra ---- *)
+Lemma vadd_0_r x : vadd x vzero = x.
+Proof. rewrite vadd_comm. apply vadd_0_l. Qed.
 
+Lemma vsum_app l1 l2 : vsum (l1 ++ l2) = vadd (vsum l1) (vsum l2).
+Proof.
+  induction l1 as [|x l1 IH]; cbn [app vsum]; [now rewrite vadd_0_l|].
+  now rewrite IH, vadd_assoc.
+Qed.
+
+Lemma vadd_swap x y z w : vadd (vadd x y) (vadd z w) = vadd (vadd x z) (vadd y w).
+Proof.
+  rewrite <- (vadd_assoc x y), (vadd_assoc y z w), (vadd_comm y z), <- (vadd_assoc z y w).
+  now rewrite vadd_assoc.
+Qed.
+
+Lemma vsum_add {A} (f g : A -> V) l :
+  vsum (map (fun k => vadd (f k) (g k)) l) = vadd (vsum (map f l)) (vsum (map g l)).
+Proof.
+  induction l as [|x l IH]; cbn [map vsum]; [now rewrite vadd_0_l|].
+  now rewrite IH, vadd_swap.
+Qed.
+
+Lemma vsum_zero {A} (f : A -> V) l : (forall k, In k l -> f k = vzero) -> vsum (map f l) = vzero.
+Proof.
+  induction l as [|x l IH]; intros H; cbn [map vsum]; [reflexivity|].
+  rewrite H by now left. rewrite IH; [apply vadd_0_l|]. intros; apply H; now right.
+Qed.
+
+(* sum over 0..e-1 of (x if k = c else 0) *)
+Lemma vsum_delta c x e :
+  vsum (map (fun k => if Nat.eqb c k then x else vzero) (seq 0 e)) = if (c <? e)%nat then x else vzero.
+Proof.
+  induction e as [|e IH]; [reflexivity|].
+  rewrite seq_S, map_app, vsum_app, IH. cbn [plus map vsum].
+  rewrite vadd_0_r.
+  destruct (Nat.eqb_spec c e) as [->|Hne].
+  - destruct (Nat.ltb_spec e e); [lia|]. destruct (Nat.ltb_spec e (Datatypes.S e)); [|lia].
+    now rewrite vadd_0_l.
+  - rewrite vadd_0_r.
+    destruct (Nat.ltb_spec c e); destruct (Nat.ltb_spec c (Datatypes.S e)); try lia; reflexivity.
+Qed.
+
+Lemma vsum_ext {A} (f g : A -> V) l : (forall k, In k l -> f k = g k) -> vsum (map f l) = vsum (map g l).
+Proof. intros H. f_equal. apply map_ext_in. exact H. Qed.
+
+(* ---- patterns ---- *)
 Lemma matches_upd_other p a v r d : d <> a -> matchd (upd p a v) r d = matchd p r d.
 Proof. intros H. unfold matchd, upd. destruct (Nat.eqb_spec d a); [contradiction|reflexivity]. Qed.
 
@@ -73,34 +135,27 @@ Qed.
 
 (* partition: S(p[a:=None]) = sum_k<ext S(p[a:=Some k]) *)
 Lemma partition p a : (a < n)%nat ->
-  S (upd p a None) = sumZ (map (fun k => S (upd p a (Some k))) (seq 0 (ext a))).
+  S (upd p a None) = vsum (map (fun k => S (upd p a (Some k))) (seq 0 (ext a))).
 Proof.
   intros Ha. unfold S.
   assert (G: forall l, (forall r, In r l -> In r rows) ->
-     sumZ (map mu (filter (matches (upd p a None)) l)) =
-     sumZ (map (fun k => sumZ (map mu (filter (matches (upd p a (Some k))) l))) (seq 0 (ext a)))).
+     vsum (map mu (filter (matches (upd p a None)) l)) =
+     vsum (map (fun k => vsum (map mu (filter (matches (upd p a (Some k))) l))) (seq 0 (ext a)))).
   { induction l as [|r l IH]; intros Hl.
-    - cbn. induction (seq 0 (ext a)); cbn; lia.
-    - cbn [filter]. rewrite (matches_split p a None) by assumption. cbn [andb].
-      assert (Hc: (cat a r < ext a)%nat) by (apply cat_lt; [assumption|apply Hl; now left]).
-      assert (E: forall e, sumZ (map (fun k => sumZ (map mu (filter (matches (upd p a (Some k))) (r :: l)))) (seq 0 e)) =
-               sumZ (map (fun k => sumZ (map mu (filter (matches (upd p a (Some k))) l))) (seq 0 e))
-               + (if (cat a r <? e)%nat then (if others p a r then mu r else 0) else 0)).
-      { induction e as [|e IHe]; [cbn; lia|].
-        rewrite seq_S, !map_app, !sumZ_app, IHe. cbn [map sumZ filter plus].
-        rewrite (matches_split p a (Some e)) by assumption.
-        destruct (Nat.eqb_spec (cat a r) e) as [Heq|Hne].
-        - subst e. destruct (Nat.ltb_spec (cat a r) (cat a r)); [lia|].
-          destruct (Nat.ltb_spec (cat a r) (Datatypes.S (cat a r))); [|lia].
-          cbn [andb]. destruct (others p a r); cbn [map sumZ]; lia.
-        - cbn [andb].
-          destruct (Nat.ltb_spec (cat a r) e); destruct (Nat.ltb_spec (cat a r) (Datatypes.S e)); try lia. }
-      rewrite E. destruct (Nat.ltb_spec (cat a r) (ext a)); [|lia].
+    - cbn [filter map vsum]. symmetry. apply vsum_zero. reflexivity.
+    - assert (Hc: (cat a r < ext a)%nat) by (apply cat_lt; [assumption|apply Hl; now left]).
+      (* every inner sum gains (mu r if cat a r = k and the others match) *)
+      rewrite (vsum_ext _ (fun k => vadd (if Nat.eqb (cat a r) k then (if others p a r then mu r else vzero) else vzero)
+                                         (vsum (map mu (filter (matches (upd p a (Some k))) l))))).
+      2:{ intros k _. cbn [filter]. rewrite (matches_split p a (Some k)) by assumption.
+          destruct (Nat.eqb (cat a r) k); cbn [andb]; [|now rewrite vadd_0_l].
+          destruct (others p a r); cbn [map vsum]; [reflexivity|now rewrite vadd_0_l]. }
+      rewrite vsum_add, vsum_delta. destruct (Nat.ltb_spec (cat a r) (ext a)); [|lia].
       rewrite <- IH by (intros; apply Hl; now right).
-      destruct (others p a r); cbn [map sumZ]; lia. }
+      cbn [filter]. rewrite (matches_split p a None) by assumption. cbn [andb].
+      destruct (others p a r); cbn [map vsum]; [reflexivity|now rewrite vadd_0_l]. }
   apply G. auto.
 Qed.
-
 
 Lemma S_ext p q : (forall d, (d < n)%nat -> p d = q d) -> S p = S q.
 Proof.
@@ -117,9 +172,6 @@ Proof.
   intros Hb. unfold has_common_from, upd. split; intros [d [Hd E]]; exists d; (split; [lia|]);
   destruct (Nat.eqb_spec d b); try lia; assumption.
 Qed.
-
-Lemma sum_zero (f : nat -> Z) l : (forall k, In k l -> f k = 0) -> sumZ (map f l) = 0.
-Proof. induction l as [|x l IH]; intros H; cbn [map sumZ]; [reflexivity|]. rewrite H by now left. rewrite IH; [lia|]. intros; apply H; now right. Qed.
 
 Lemma step_inv a R : (a < n)%nat -> Inv a R -> Inv (Datatypes.S a) (diff_axis a R).
 Proof.
@@ -138,43 +190,76 @@ Proof.
   (* p a = Some (com a) *)
   split; intros H.
   - (* some later common: everything involved is 0 *)
-    assert (Z1: R (upd p a None) = 0).
+    assert (Z1: R (upd p a None) = vzero).
     { apply (HI _). destruct H as [d [Hd E]]. exists d. split; [lia|]. unfold upd. destruct (Nat.eqb_spec d a); [lia|assumption]. }
-    rewrite Z1, sum_zero; [lia|]. intros k _. apply (HI _).
-    destruct H as [d [Hd E]]. exists d. split; [lia|]. unfold upd. destruct (Nat.eqb_spec d a); [lia|assumption].
+    rewrite Z1, vsum_zero.
+    + rewrite <- (vadd_0_l vzero) at 1. apply vadd_sub.
+    + intros k _. apply (HI _).
+      destruct H as [d [Hd E]]. exists d. split; [lia|]. unfold upd. destruct (Nat.eqb_spec d a); [lia|assumption].
   - (* no later common *)
     assert (NC: forall v, v <> Some (com a) -> ~ has_common_from a (upd p a v)).
     { intros v Hv [d [Hd E]]. unfold upd in E. destruct (Nat.eqb_spec d a) as [->|Hne]; [congruence|].
       apply H. exists d. split; [lia|assumption]. }
     rewrite (proj2 (HI _) (NC None ltac:(discriminate))).
     rewrite (partition p a Ha).
-    (* split the sum at k = com a *)
-    assert (G: forall e, sumZ (map (fun k => S (upd p a (Some k))) (seq 0 e))
-                 - sumZ (map (fun k => R (upd p a (Some k))) (seq 0 e))
-                 = if (com a <? e)%nat then S (upd p a (Some (com a))) else 0).
-    { induction e as [|e IHe]; [reflexivity|].
-      rewrite seq_S, !map_app, !sumZ_app. cbn [plus map sumZ].
-      destruct (Nat.eqb_spec e (com a)) as [->|Hne].
-      - assert (R (upd p a (Some (com a))) = 0) as ->.
-        { apply (HI _). exists a. split; [lia|]. unfold upd. now rewrite Nat.eqb_refl. }
-        destruct (Nat.ltb_spec (com a) (com a)); [lia|].
-        destruct (Nat.ltb_spec (com a) (Datatypes.S (com a))); [|lia]. lia.
-      - rewrite (proj2 (HI _) (NC (Some e) ltac:(congruence))).
-        destruct (Nat.ltb_spec (com a) e); destruct (Nat.ltb_spec (com a) (Datatypes.S e)); lia. }
-    specialize (G (ext a)). pose proof (com_lt a Ha). destruct (Nat.ltb_spec (com a) (ext a)); [|lia].
-    rewrite <- Epa in G. rewrite (S_ext (upd p a (p a)) p) in G by (intros; apply upd_same). lia.
+    (* S_k = delta_k + R_k with delta_k = S(p[a:=com a]) at k = com a, else 0 *)
+    rewrite (vsum_ext (fun k => S (upd p a (Some k)))
+              (fun k => vadd (if Nat.eqb (com a) k then S (upd p a (Some (com a))) else vzero)
+                             (R (upd p a (Some k))))).
+    2:{ intros k _. destruct (Nat.eqb_spec (com a) k) as [<-|Hne].
+        - assert (R (upd p a (Some (com a))) = vzero) as ->.
+          { apply (HI _). exists a. split; [lia|]. unfold upd. now rewrite Nat.eqb_refl. }
+          now rewrite vadd_0_r.
+        - rewrite vadd_0_l. symmetry. apply (HI _). apply NC. congruence. }
+    rewrite vsum_add, vsum_delta, vadd_sub.
+    pose proof (com_lt a Ha). destruct (Nat.ltb_spec (com a) (ext a)); [|lia].
+    rewrite <- Epa. apply S_ext. intros; apply upd_same.
 Qed.
 
 Fixpoint diff_all (k : nat) (R : reg) : reg :=
   match k with O => R | Datatypes.S k' => diff_axis k' (diff_all k' R) end.
 
+Lemma diff_all_inv R : Inv 0 R -> forall k, (k <= n)%nat -> Inv k (diff_all k R).
+Proof.
+  intros H0. induction k as [|k IH]; intros Hk; [exact H0|].
+  cbn [diff_all]. apply step_inv; [lia|apply IH; lia].
+Qed.
+
 Theorem diff_all_correct R : Inv 0 R -> forall p, diff_all n R p = S p.
 Proof.
-  intros H0.
-  assert (G: forall k, (k <= n)%nat -> Inv k (diff_all k R)).
-  { induction k as [|k IH]; intros Hk; [exact H0|]. cbn [diff_all]. apply step_inv; [lia|apply IH; lia]. }
-  intros p. apply (G n (le_n n) p). intros [d [Hd _]]. lia.
+  intros H0 p. apply (diff_all_inv R H0 n (le_n n) p). intros [d [Hd _]]. lia.
 Qed.
 End Diff.
+
+
+(* ---- instances ---- *)
+Section Instances.
+Variable Row : Type.
+Variable rows : list Row.
+Variable cat : nat -> Row -> nat.
+Variable n : nat.
+Variable ext com : nat -> nat.
+Hypothesis cat_lt : forall d r, (d < n)%nat -> In r rows -> (cat d r < ext d)%nat.
+Hypothesis com_lt : forall d, (d < n)%nat -> (com d < ext d)%nat.
+
+(* counts: V = Z *)
+Theorem diff_all_correct_Z (mu : Row -> Z) (R : reg Z) :
+  Inv Z Z.add 0%Z Row rows cat mu n com 0 R ->
+  forall p, diff_all Z Z.add Z.sub 0%Z ext com n R p = S Z Z.add 0%Z Row rows cat mu n p.
+Proof.
+  apply diff_all_correct; try assumption; intros; lia.
+Qed.
+
+(* sums, weights: V = Qc *)
+Theorem diff_all_correct_Qc (mu : Row -> Qc) (R : reg Qc) :
+  Inv Qc Qcplus (Q2Qc 0) Row rows cat mu n com 0 R ->
+  forall p, diff_all Qc Qcplus Qcminus (Q2Qc 0) ext com n R p = S Qc Qcplus (Q2Qc 0) Row rows cat mu n p.
+Proof.
+  apply diff_all_correct; try assumption; intros; ring.
+Qed.
+End Instances.
+
 Check diff_all_correct.
 Print Assumptions diff_all_correct.
+Print Assumptions diff_all_correct_Z.
+Print Assumptions diff_all_correct_Qc.
